@@ -150,10 +150,34 @@ def mk_obj(d):
     raise ValueError(f'bad descriptor {d}')
 
 
+ALIAS = False  # swarm knob (set per run by the kernel): equal objects of immutable types share one instance
+_ALIASABLE = ('Floor', 'Wall', 'Exit', 'Key', 'MovingObstacle', 'Telepod', 'Beacon')
+
+
+def set_alias(flag):
+    global ALIAS
+    ALIAS = bool(flag)
+
+
 def mk_state(world):
-    grid = Grid([[mk_obj(c) for c in row] for row in world['cells']])
+    """concretise a world.  With the ALIAS knob on, cells holding equal objects of types the library never
+    mutates in place share ONE instance (as a user writing `[Telepod(c)] * 2` would produce): object identity
+    structure is a dimension of the state space too."""
+    if ALIAS:
+        pool = {}
+
+        def mk(c):
+            if c[0] in _ALIASABLE:
+                k = T(c)
+                if k not in pool:
+                    pool[k] = mk_obj(c)
+                return pool[k]
+            return mk_obj(c)
+    else:
+        mk = mk_obj
+    grid = Grid([[mk(c) for c in row] for row in world['cells']])
     y, x, o, held = world['agent']
-    agent = Agent(Position(y, x), Orientation[o], mk_obj(held))
+    agent = Agent(Position(y, x), Orientation[o], mk(held))
     return State(grid, agent)
 
 
